@@ -392,11 +392,12 @@ Lemma lexes_rawtext d l pre content ename erest h :
   is_raw_hash h = true -> is_xml_hash h = false -> h <> html_hash_Plaintext -> h <> html_hash_Script ->
   content <> [] -> no_lt_slash content ->
   Forall (fun c => is_letter c = true) ename -> to_hash (map lower ename) = Ok h ->
-  (exists c r, erest = c :: r /\ is_letter c = false) ->
+  (exists c r, erest = c :: r /\ is_tagend c = true) ->
   exists l', lexes d l pre content (60 :: 47 :: ename ++ erest) [mkObs TextT content content []] l' /\
              intag l' = false /\ rawtag l' = 0.
 Proof.
-  intros Hat Hit Hraw Hrh Hxh Hnp Hns Hne Hnls Hlet Hhash (ce & re & Ee & Hce).
+  intros Hat Hit Hraw Hrh Hxh Hnp Hns Hne Hnls Hlet Hhash (ce & re & Ee & Hte).
+  assert (Hce : is_letter ce = false) by (apply tagend_not_letter; exact Hte).
   pose proof Hat as (Hi & Hcl & Hd & Hp). pose proof Hi as (Hl & Hlen & Hsuf & _).
   destruct (at_input_buflen _ _ _ _ Hat) as [Hbl Hpre0].
   pose proof (len_nonneg content). pose proof (len_nonneg ename). pose proof (len_nonneg erest).
@@ -421,7 +422,7 @@ Proof.
       rewrite !peekz_cons_succ by (unfold j; lia).
       destruct (peekz_in ename j ltac:(unfold j; lia)) as (c & Hc & Hin).
       rewrite peekz_app_l by (unfold j; lia). exists c. split; [exact Hc|]. rewrite Forall_forall in Hlet. apply Hlet, Hin.
-    - exists ce. split; [|exact Hce].
+    - exists ce. split; [|split; [exact Hce|intros _; left; exact Hte]].
       replace (len pre + len content + 2 + len ename) with (len pre + (len content + (len ename + 1 + 1))) by lia.
       rewrite Hpk by (rewrite Hlens, Ee, len_cons; pose proof (len_nonneg re); lia). unfold s. rewrite peekz_app_rk by lia.
       rewrite !peekz_cons_succ by lia.
@@ -460,7 +461,7 @@ Proof.
   assert (Hlend : len d = len pre + len s) by (rewrite Hd, len_app; reflexivity).
   assert (Hem : e = m).
   { destruct (Z.lt_trichotomy e m) as [Hlt|[?|Hgt]]; [|assumption|].
-    - exfalso. destruct Hend as [->|[_ Hend]]; [unfold m in Hlt; lia|]. apply (Hnone e); [lia|exact Hend].
+    - exfalso. destruct Hend as [->|[_ [Hend|[Hsc _]]]]; [unfold m in Hlt; lia| |congruence]. apply (Hnone e); [lia|exact Hend].
     - exfalso. apply (Hmin eq_refl Hns Hnp m); [unfold m in *; lia|exact Hm]. }
   subst e. destruct (Htok ltac:(unfold m; lia)) as (-> & -> & Htx & Hr' & Hit' & Hpos').
   exists l'. split; [|tauto].
@@ -516,10 +517,10 @@ Definition item_obs (i : item) : list obs :=
   | ITag name attrs ws void =>
       mkObs StartTagT (60 :: map lower name) (map lower name) [] :: map attr_obs attrs ++
       [mkObs (if void then StartTagVoidT else StartTagCloseT) (closer void) [] []]
-  | IEnd name ws => [mkObs EndTagT (map lower (item_bytes (IEnd name ws))) (map lower name) []]
+  | IEnd name ws => [mkObs EndTagT (60 :: 47 :: map lower name ++ ws ++ [62]) (map lower name) []]
   | IRaw name attrs ws content ename ews =>
       tag_obs name attrs false ++
-      [mkObs TextT content content []; mkObs EndTagT (map lower (60 :: 47 :: ename ++ ews ++ [62])) (map lower ename) []]
+      [mkObs TextT content content []; mkObs EndTagT (60 :: 47 :: map lower ename ++ ews ++ [62]) (map lower ename) []]
   | IForeign h name inner ename ews =>
       [mkObs (foreign_ty h) (60 :: map lower name ++ inner ++ 60 :: 47 :: ename ++ ews ++ [62]) (map lower name) []]
   end.
@@ -538,8 +539,8 @@ Definition wf_item (i : item) : Prop :=
       (exists h, to_hash (map lower name) = Ok h /\ is_raw_hash h = false) /\     (* not raw text, not svg/math/xml *)
       all_ws ws /\ wf_attrs attrs (ws ++ closer void)
   | IEnd name ws =>
-      (exists c nm, name = c :: nm /\ is_letter c = true) /\ Forall (fun c => c <> 62 /\ is_ws4 c = false) name /\
-      Forall (fun c => is_ws4 c = true) ws
+      (exists c nm, name = c :: nm /\ is_letter c = true) /\ Forall (fun c => is_tagend c = false) name /\
+      Forall (fun c => is_ws c = true) ws
   | IRaw name attrs ws content ename ews =>
       (exists c nm, name = c :: nm /\ is_letter c = true) /\ Forall namechar name /\
       (exists h, to_hash (map lower name) = Ok h /\ to_hash (map lower ename) = Ok h /\ is_raw_hash h = true /\
@@ -547,12 +548,12 @@ Definition wf_item (i : item) : Prop :=
                  (h <> html_hash_Script \/ Forall (fun c => c <> 60) content)) /\   (* style title textarea xmp iframe; script without '<' *)
       all_ws ws /\ wf_attrs attrs (ws ++ closer false) /\
       content <> [] /\ no_lt_slash content /\
-      ename <> [] /\ Forall (fun c => is_letter c = true) ename /\ Forall (fun c => is_ws4 c = true) ews
+      ename <> [] /\ Forall (fun c => is_letter c = true) ename /\ Forall (fun c => is_ws c = true) ews
   | IForeign h name inner ename ews =>
       (exists c nm, name = c :: nm /\ is_letter c = true) /\ Forall namechar name /\
       to_hash (map lower name) = Ok h /\ to_hash (map lower ename) = Ok h /\ is_xml_hash h = true /\   (* svg math xml *)
       (exists c r, inner = c :: r /\ (is_ws c = true \/ c = 62)) /\ xml_inner inner /\
-      Forall (fun c => is_letter c = true) ename /\ Forall (fun c => is_ws4 c = true) ews
+      Forall (fun c => is_letter c = true) ename /\ Forall (fun c => is_ws c = true) ews
   end.
 
 (* a document: well-formed items, no two texts in a row *)
@@ -668,6 +669,31 @@ Proof.
   - destruct Hwf as ((c & nm & -> & Hl) & _). cbn [app]. eexists _, _. split; [reflexivity|tauto].
 Qed.
 
+(* what is observed of an end tag "</" name ws ">" whose name was lower-cased in place *)
+Lemma endtag_obs_bytes d l pre name ws rest : at_input d l pre (60 :: 47 :: name ++ ws ++ 62 :: rest) ->
+  let B := lower_view (lbuf (lz l)) (mkSl (len pre + 2) (len name)) in
+  view_bytes B (mkSl (len pre) (3 + len name + len ws)) = 60 :: 47 :: map lower name ++ ws ++ [62] /\
+  view_bytes B (mkSl (len pre + 2) (len name)) = map lower name.
+Proof.
+  intros Hat B. destruct (at_input_buflen _ _ _ _ Hat) as [Hbl Hpre0].
+  pose proof (len_nonneg name). pose proof (len_nonneg ws). pose proof (len_nonneg rest).
+  assert (Hlen : len (60 :: 47 :: name ++ ws ++ 62 :: rest) = 3 + len name + len ws + len rest) by (rewrite !len_cons, !len_app, len_cons; lia).
+  assert (Hname : view_bytes (lbuf (lz l)) (mkSl (len pre + 2) (len name)) = name).
+  { rewrite (at_input_view d l pre _ 2 (len name) Hat) by lia. exact (slice_mid [60; 47] name (ws ++ 62 :: rest)). }
+  split.
+  - unfold B. replace (mkSl (len pre + 2) (len name)) with (mkSl (len pre + 2) (2 + len name - 2)) by (f_equal; lia).
+    rewrite view_lower_middle by lia. replace (2 + len name - 2) with (len name) by lia. rewrite Hname.
+    rewrite (at_input_view0 d l pre _ 2 Hat) by lia.
+    rewrite (at_input_view d l pre _ (2 + len name) (3 + len name + len ws - (2 + len name)) Hat) by lia.
+    change (slice (60 :: 47 :: name ++ ws ++ 62 :: rest) 0 2) with [60; 47].
+    replace (slice (60 :: 47 :: name ++ ws ++ 62 :: rest) (2 + len name) (2 + len name + (3 + len name + len ws - (2 + len name)))) with (ws ++ [62]); [reflexivity|].
+    symmetry. replace (60 :: 47 :: name ++ ws ++ 62 :: rest) with (([60; 47] ++ name) ++ (ws ++ [62]) ++ rest) by (cbn [app]; rewrite <- !app_assoc; reflexivity).
+    replace (2 + len name) with (len ([60; 47] ++ name)) by (rewrite len_app; reflexivity).
+    replace (3 + len name + len ws - len ([60; 47] ++ name)) with (len (ws ++ [62])) by (rewrite !len_app; change (len [60; 47]) with 2; change (len [62]) with 1; lia).
+    apply slice_mid.
+  - unfold B. rewrite view_bytes_lower_view by (cbn [so sn]; lia). rewrite Hname. reflexivity.
+Qed.
+
 Lemma item_obs_noerr i : Forall (fun o => o_ty o <> ErrorT) (item_obs i).
 Proof.
   destruct i as [t|b|b|x0 x1 x2 x3 x4 x5 x6 after|name attrs ws void|name ws|name attrs ws content ename ews|h name inner ename ews];
@@ -738,12 +764,8 @@ Proof.
     exists l'. split; [|tauto]. pose proof (len_nonneg name). pose proof (len_nonneg ws).
     assert (Hl : len (60 :: 47 :: name ++ ws ++ [62]) = 3 + len name + len ws) by (rewrite !len_cons, !len_app; change (len [62]) with 1; lia).
     eapply lexes_one; [exact Hat|exact Hn|cbn [so sn]; lia|].
-    cbn [observe]. rewrite Htx, Hb. cbn [opt_bytes]. change (EndTagT =? AttributeT) with false. f_equal.
-    + rewrite view_bytes_lower_view by (cbn [so sn]; rewrite ?len_app in Hbl; lia). f_equal.
-      rewrite (at_input_view0 d l pre _ _ Hat) by (rewrite ?len_app; lia). rewrite <- Hl. apply slice_first.
-    + rewrite view_lower_inside by (cbn [so sn]; unfold inview; cbn [so sn]; rewrite ?len_app in Hbl; lia). f_equal.
-      rewrite (at_input_view d l pre _ 2 (len name) Hat') by (rewrite ?len_cons, ?len_app, ?len_cons; lia).
-      apply (slice_mid [60; 47] name (ws ++ 62 :: rest)).
+    cbn [observe]. rewrite Htx, Hb. cbn [opt_bytes]. change (EndTagT =? AttributeT) with false.
+    destruct (endtag_obs_bytes d l pre name ws rest Hat') as [E1 E2]. rewrite E1, E2. reflexivity.
   - (* raw-text element: tag, content, end tag *)
     destruct Hwf as (Hn1 & Hn2 & (h & Hh & Heh & Hrh & Hxh & Hnp & Hns) & Hws & Hattrs & Hcne & Hnls & Hene & Helet & Hews).
     set (etag := 60 :: 47 :: ename ++ ews ++ [62]) in *.
@@ -753,10 +775,9 @@ Proof.
     rewrite Hrh in Hr1.
     assert (Hat2 : at_input d l1 (pre ++ 60 :: name ++ tag_rest attrs ws false) (content ++ 60 :: 47 :: ename ++ (ews ++ 62 :: rest))).
     { destruct Hl1 as (tr & _ & _ & _ & A). unfold etag in A. cbn [app] in A. rewrite <- !app_assoc in A. exact A. }
-    assert (Herest : exists c r, ews ++ 62 :: rest = c :: r /\ is_letter c = false).
+    assert (Herest : exists c r, ews ++ 62 :: rest = c :: r /\ is_tagend c = true).
     { destruct ews as [|w ews']; [exists 62, rest; split; reflexivity|]. exists w, (ews' ++ 62 :: rest). split; [reflexivity|].
-      inversion Hews as [|? ? Hw _]; subst. unfold is_ws4 in Hw. unfold is_letter.
-      repeat (apply orb_true_iff in Hw; destruct Hw as [Hw|Hw]); apply Z.eqb_eq in Hw; subst w; reflexivity. }
+      apply is_tagend_ws. inversion Hews; assumption. }
     assert (Hraw2 : exists l2, lexes d l1 (pre ++ 60 :: name ++ tag_rest attrs ws false) content (60 :: 47 :: ename ++ ews ++ 62 :: rest)
                                  [mkObs TextT content content []] l2 /\ intag l2 = false /\ rawtag l2 = 0).
     { destruct Hns as [Hns|Hnolt].
@@ -773,27 +794,22 @@ Proof.
     { destruct Hl2 as (tr & _ & _ & _ & A). exact A. }
     assert (Hen1 : exists c nm, ename = c :: nm /\ is_letter c = true).
     { destruct ename as [|c nm]; [congruence|]. exists c, nm. split; [reflexivity|]. inversion Helet; assumption. }
-    assert (Hen2 : Forall (fun c => c <> 62 /\ is_ws4 c = false) ename).
-    { eapply Forall_impl; [|exact Helet]. cbn beta. intros a Ha. pose proof (namechar_letter a Ha) as (Hw & H62 & _).
-      split; [exact H62|]. unfold is_ws, is_ws4 in *. apply orb_false_iff in Hw. destruct Hw as [Hw _]. exact Hw. }
+    assert (Hen2 : Forall (fun c => is_tagend c = false) ename).
+    { eapply Forall_impl; [|exact Helet]. cbn beta. intros a Ha. destruct (is_tagend a) eqn:Et; [|reflexivity].
+      apply tagend_not_letter in Et. congruence. }
     set (pre3 := (pre ++ 60 :: name ++ tag_rest attrs ws false) ++ content) in *.
     destruct (next_endtag d l2 pre3 ename ews rest Hat3 Hi2 Hr2 Hen1 Hen2 Hews) as (l3 & Hn3 & Htx3 & Hb3 & Hi3 & Hr3 & _).
     pose proof (len_nonneg ename). pose proof (len_nonneg ews). pose proof (len_nonneg pre3).
     assert (Hl3 : len etag = 3 + len ename + len ews) by (unfold etag; rewrite !len_cons, !len_app; change (len [62]) with 1; lia).
     assert (Hat3' : at_input d l2 pre3 (etag ++ rest)).
     { unfold etag. cbn [app]. rewrite <- !app_assoc. exact Hat3. }
-    assert (Hlex3 : lexes d l2 pre3 etag rest [mkObs EndTagT (map lower etag) (map lower ename) []] l3).
-    { destruct (at_input_buflen _ _ _ _ Hat3') as [Hbl3 _]. rewrite len_app in Hbl3.
-      eapply lexes_one; [exact Hat3'|exact Hn3|cbn [so sn]; lia|].
-      cbn [observe]. rewrite Htx3, Hb3. cbn [opt_bytes]. change (EndTagT =? AttributeT) with false. f_equal.
-      - rewrite view_bytes_lower_view by (cbn [so sn]; lia). f_equal.
-        rewrite (at_input_view0 d l2 pre3 _ _ Hat3') by (rewrite ?len_app; lia). rewrite <- Hl3. apply slice_first.
-      - rewrite view_lower_inside by (cbn [so sn]; unfold inview; cbn [so sn]; lia). f_equal.
-        rewrite (at_input_view d l2 pre3 _ 2 (len ename) Hat3) by (rewrite ?len_cons, ?len_app, ?len_cons; lia).
-        apply (slice_mid [60; 47] ename (ews ++ 62 :: rest)). }
+    assert (Hlex3 : lexes d l2 pre3 etag rest [mkObs EndTagT (60 :: 47 :: map lower ename ++ ews ++ [62]) (map lower ename) []] l3).
+    { eapply lexes_one; [exact Hat3'|exact Hn3|cbn [so sn]; lia|].
+      cbn [observe]. rewrite Htx3, Hb3. cbn [opt_bytes]. change (EndTagT =? AttributeT) with false.
+      destruct (endtag_obs_bytes d l2 pre3 ename ews rest Hat3) as [E1 E2]. rewrite E1, E2. reflexivity. }
     exists l3. split; [|tauto].
-    change [mkObs TextT content content []; mkObs EndTagT (map lower etag) (map lower ename) []]
-      with ([mkObs TextT content content []] ++ [mkObs EndTagT (map lower etag) (map lower ename) []]).
+    change [mkObs TextT content content []; mkObs EndTagT (60 :: 47 :: map lower ename ++ ews ++ [62]) (map lower ename) []]
+      with ([mkObs TextT content content []] ++ [mkObs EndTagT (60 :: 47 :: map lower ename ++ ews ++ [62]) (map lower ename) []]).
     eapply lexes_app; [rewrite <- (app_assoc content etag rest); exact Hl1|]. eapply lexes_app; [|exact Hlex3].
     unfold etag. cbn [app]. rewrite <- ?app_assoc. cbn [app]. exact Hl2.
   - (* svg / math / xml *)
